@@ -368,6 +368,11 @@ func patternsC15(c *Ctx) {
 				key := gname + ": (a) whitespace after `=`"
 				c.Check(empty, "C15.patterns", key, pos, "the pattern demands whitespace after `=`, the parser does not: SET PASSWORD FOR u='pw' is left unredacted")
 			}
+			// (a') in front of the captured literal: a quoted literal delimits itself
+			if i+1 < len(seq) && seq[i+1].Op == syntax.OpCapture {
+				key := gname + ": (a') whitespace before the quoted password"
+				c.Check(empty, "C15.patterns", key, pos, "the pattern demands whitespace between the keyword and the password literal; a quoted literal needs none and the parser accepts WITH PASSWORD'pw', which is then left unredacted")
+			}
 			// (b) comments
 			key := fmt.Sprintf("%s: (b) separator #%d admits comments", gname, i)
 			c.Bad("C15.patterns", key, pos, "the separator admits blanks only; the parser also skips -- and /* */ comments there, so a comment in front of the password defeats the pattern")
